@@ -45,13 +45,22 @@ class Problem(object):
         self.W = W / max(1.0, float(torch.linalg.matrix_norm(W, 2)))
         self.c = rnd(*lead, n) * 0.5
         self.lead = tuple(lead)
-        self.kappa = {"tanh-weak": 0.2, "tanh-strong": 0.5, "linear": 0.4, "const": 0.0, "shift": 0.0, "atroot": 0.0}[name]
+        self.kappa = {"tanh-weak": 0.2, "tanh-strong": 0.5, "linear": 0.4, "const": 0.0, "shift": 0.0, "atroot": 0.0, "logdom": 0.0}[name]
         self.y0 = torch.zeros(*lead, n, dtype=dtype)
         if name in ("shift", "atroot"):       # f(y) = y - 1 : every Newton-like first step lands exactly on the root
             self.c = torch.ones(*lead, n, dtype=dtype)
         if name == "atroot":                  # ... and here the initial guess already is the root
             self.y0 = torch.ones(*lead, n, dtype=dtype)
         k = self.kappa
+        if name == "logdom":
+            # f(y) = log(y) - c on y > 0, started far away: quasi-Newton steps leave the domain and the iterates become NaN;
+            # a run that never recovers must end with the warning, never with a silently returned NaN
+            self.c = torch.full((*lead, n), 0.5, dtype=dtype)
+            self.y0 = torch.full((*lead, n), 20.0, dtype=dtype)
+            self.g = lambda y: y - (torch.log(y) - self.c)
+            self.ystar = torch.exp(self.c)
+            self.ymin = None
+            return
         if name in ("tanh-weak", "tanh-strong"):
             self.g = lambda y: self.c + k * torch.tanh(y @ self.W.T)
         elif name == "linear":
@@ -207,7 +216,7 @@ def run_case(tid, functional, method, P, f_tol, x_tol, maxiter, opts):
 
 def cases(thorough, seed):
     out = []
-    fams = ["tanh-weak", "tanh-strong", "linear", "shift", "const", "atroot"]
+    fams = ["tanh-weak", "tanh-strong", "linear", "shift", "const", "atroot", "logdom"]
     tols = [(None, None), (1e-9, 1e-9), (1e-4, 1e-2)] if not thorough else [(None, None), (1e-9, 1e-9), (1e-4, 1e-2), (1e-10, 1e-3), (1e-3, 1e-10)]
     seeds = [seed, seed + 1] if not thorough else [seed + k for k in range(6)]
     for s in seeds:
@@ -233,7 +242,7 @@ def cases(thorough, seed):
                         out.append(("equilibrium", "anderson_acc", P, ft, xt, 3, {}))
                         for m in ("broyden1", "newton"):
                             out.append(("equilibrium", m, P, ft, xt, None, {}))
-                for P in (Ps if (not dtype.is_complex and fam not in ("shift", "atroot")) else []):
+                for P in (Ps if (not dtype.is_complex and fam not in ("shift", "atroot", "logdom")) else []):
                     for m in ("broyden1", "broyden2"):
                         out.append(("minimize", m, P, None, None, None, {}))
                         out.append(("minimize", m, P, 1e-9, 1e-9, None, {}))
@@ -342,7 +351,7 @@ def run(ctx):
     for t in traces:
         c = t["cfg"]
         last = t["ev"][-1]
-        must = (c["method"] in NONLIN + ["anderson_acc", "gd"]) and c["maxiter"] not in (0, 2, 3, 5) and not c["opts"].get("starved") and last["a"] == "ret"
+        must = (c["method"] in NONLIN + ["anderson_acc", "gd"]) and c["maxiter"] not in (0, 2, 3, 5) and not c["opts"].get("starved") and c["problem"] != "logdom" and last["a"] == "ret"
         if must and last["warned"]:
             ctx.violation("rootloop/%s/%s/warned-on-contractive" % (c["functional"], c["method"]),
                           "%s warned on a contractive well-conditioned problem (residual %.2e)" % (json.dumps(c), last["resid"]), {"cfg": c})
